@@ -85,8 +85,14 @@ package hrpc
 
 //@ func hrpc.Call.Name() (r)
 //@   pure
+// the region a call is routed to is mutable (SetRegion): kept in the ghost map callregion
 //@ func hrpc.Call.Region() (r)
-//@   pure
+//@   modifies nothing
+//@   ensures r == ghostat("callregion", recv)
+//@ func hrpc.Call.SetRegion(region)
+//@   modifies X.callregion
+//@   ensures ghostat("callregion", recv) == region
+//@   ensures forall(k, k != recv ==> ghostat("callregion", k) == old(ghostat("callregion", k)))
 //@ func hrpc.Call.ResultChan() (r)
 //@   pure
 //@ func hrpc.Call.Context() (r)
